@@ -46,6 +46,9 @@ func HashName(label string, ha uint8, iter uint16, salt string) string {
 // Cover returns true if a name is covered by the NSEC3 record.
 func (rr *NSEC3) Cover(name string) bool {
 	nameHash := HashName(name, rr.Hash, rr.Iterations, rr.Salt)
+	if nameHash == "" { // unsupported hash algorithm or bad salt: nothing can be said
+		return false
+	}
 	owner := strings.ToUpper(rr.Hdr.Name)
 	labelIndices := Split(owner)
 	if len(labelIndices) < 2 {
